@@ -51,6 +51,36 @@ fn strategy(kmax: u32) -> impl Strategy<Value = Case> {
         })
 }
 
+/// Windows and per-block repair counts longer than 2^16 (and 2^17) packets on small blocks.
+fn strategy_long() -> impl Strategy<Value = Case> {
+    (
+        prop_oneof![3 => 1u32..=40, 1 => Just(10u32), 1 => Just(11u32)],
+        1usize..=4,
+        any::<u64>(),
+        prop_oneof![3 => 65_530u32..=65_560, 2 => 60_000u32..=140_000, 1 => 131_060u32..=131_090],
+        prop_oneof![Just(0i64), -40i64..=40, Just(i64::MAX)],
+        0u32..=40,
+        0u64..6,
+        any::<u64>(),
+        1usize..=2,
+        prop_oneof![3 => 0u32..=6, 1 => 65_530u32..=66_000],
+        0u8..4,
+    )
+        .prop_map(|(k, t, r, n1, d2, n2, build, seed, z, rpb, smode)| {
+            let max_start = (1u32 << 24) - k;
+            let s1 = match smode {
+                0 => 0,
+                1 => (r % (max_start as u64 + 1)) as u32,
+                2 => max_start.saturating_sub(n1 + (r % 3) as u32),
+                _ => (r % 5000) as u32,
+            }
+            .min(max_start - n1.min(max_start));
+            // i64::MAX stands for "second window over the tail of the first"
+            let d2 = if d2 == i64::MAX { n1 as i64 - 1 - (r % 30) as i64 } else { d2 };
+            Case { k, t, s1, n1, d2, n2, build, seed, z, repair_per_block: rpb }
+        })
+}
+
 fn check(c: &Case, st: &mut Stats) -> Result<(), String> {
     let k = c.k;
     let pr = rf::params(k);
@@ -69,6 +99,8 @@ fn check(c: &Case, st: &mut Stats) -> Result<(), String> {
     st.class_if(k < pr.kp, "padding symbols present");
     st.class_if(s1 + n1 == max_start && n1 > 0, "window ends at ESI 2^24-1");
     st.class_if(s1 > 1 << 20, "far window");
+    st.class_if(n1 > 65536, "window longer than 2^16 packets");
+    st.class_if(c.repair_per_block > 65536, "object list with more than 2^16 repair packets per block");
     if overlap && s1 > 0 && k < pr.kp {
         st.nt(fnv_u64s(&[k as u64, c.t as u64, s1 as u64, n1 as u64, s2 as u64, n2 as u64]));
     }
@@ -213,10 +245,12 @@ fn signature(_: &Case, msg: &str) -> String {
 }
 
 pub fn run(ctx: &Ctx, rep: &mut Report) {
-    rep.rule = "generated (K <= 300 quick / 5000 thorough, T <= 40, construction, window (s1,n1) from {0..50} / uniform up to 2^24-K / ending exactly at ESI 2^24-1, second window at offset -40..40, n <= 40 (one window in seven up to 1500 packets long), object with Z <= 5 blocks and r <= 6 (one in six: up to 300) repair packets per block). Oracle (metamorphic + structural): window == concatenation of single-packet requests; overlapping windows agree; payload IDs are (block, K+s+i); encoders from two generated plans, the cached plan and the generated construction are == and emit identical packets; get_encoded_packets(r) is, block by block, ESI 0..K-1 then K..K+r-1 with distinct IDs, payload length T and source payloads per the reference layout; ESI 2^24-1 is producible. Non-trivial = overlapping windows with s > 0 on a block with padding; distinct by (K,T,windows).".into();
+    rep.rule = "generated (K <= 300 quick / 5000 thorough, T <= 40, construction, window (s1,n1) from {0..50} / uniform up to 2^24-K / ending exactly at ESI 2^24-1, second window at offset -40..40, n <= 40 (one window in seven up to 1500 packets long), object with Z <= 5 blocks and r <= 6 (one in six: up to 300) repair packets per block). A second group ('longwindows') has K <= 40, T <= 4 and windows of 60 000..140 000 packets (weighted to 65 530..65 560 and 131 060..131 090), the second window over the tail of the first, and object lists with up to 66 000 repair packets per block. Oracle (metamorphic + structural): window == concatenation of single-packet requests; overlapping windows agree; payload IDs are (block, K+s+i); encoders from two generated plans, the cached plan and the generated construction are == and emit identical packets; get_encoded_packets(r) is, block by block, ESI 0..K-1 then K..K+r-1 with distinct IDs, payload length T and source payloads per the reference layout; ESI 2^24-1 is producible. Non-trivial = overlapping windows with s > 0 on a block with padding; distinct by (K,T,windows).".into();
     let kmax = ctx.tier.pick(300u32, 5000);
     let n = ctx.tier.pick(50_000u64, 400_000);
     rep.absorb("windows", run_sharded("C18", "windows", ctx.seed, n, 32, move || strategy(kmax), check, to_json, signature));
+    let n = ctx.tier.pick(64u64, 1500);
+    rep.absorb("longwindows", run_sharded("C18", "longwindows", ctx.seed, n, 16, strategy_long, check, to_json, signature));
 }
 
 pub fn replay(_sub: &str, case: &Value) -> Result<(), String> {
